@@ -2,7 +2,10 @@ module verif/harness
 
 go 1.23.1
 
-require github.com/hknutzen/Netspoc-Approve/go v0.0.0
+require (
+	github.com/hknutzen/Netspoc-Approve/go v0.0.0
+	github.com/pkg/diff v0.0.0-20210226163009-20ebb0f2a09e
+)
 
 require (
 	golang.org/x/sys v0.30.0 // indirect
